@@ -91,7 +91,9 @@ def run(chk, tier, overlays=()):
     chk.rule("TYPESTATE", "in both stepTo implementations: (T1) `return EndOfSimulation` is dominated by setStepCommunicationStatus(FinalTimeHasBeenReturned) and "
              "terminationReason = ReachedFinalTime and guarded by a comparison of the current time with the final time (or CPodes' TstopReturn); every such status write "
              "leads to that return; (T2) with status FinalTimeHasBeenReturned every path throws before any step or return; reinitialize(.., shouldTerminate) enters the same "
-             "state; (T3) each returned step status is accompanied by exactly the tabled status write (or tabled 'no change'); (T5) the status switch is exhaustive")
+             "state; (T3) each returned step status is accompanied by exactly the tabled status write (or tabled 'no change'); (T5) the status switch is exhaustive; "
+             "(T7) in AbstractIntegratorRep::stepTo every path to a further takeOneStep -- from entry and from the previous step -- compares getAdvancedTime() with the final "
+             "time first (the default label of the exhaustive switch and the collect-a-reason-then-return idiom are accounted for): an advanced state at the final time is returned, never stepped from")
     chk.rule("REACHDEF", "(T4) the limit passed to takeOneStep / cpodes->step has only reaching definitions min(scheduledEventTime, finalTime[, reportTime]) "
              "-- the advanced state can never be asked to pass a scheduled event or the final time")
     for cls in (AIR, CP):
@@ -164,6 +166,45 @@ def typestate(chk, P, cls):
         p = f.path_exists(None, lambda q: q is e, tested)
         chk.judge(p is None, "TYPESTATE", short + ":T2:status-tested-before-step", "%s:%d" % (f.file, e["line"]),
                   "the status machine is consulted before every integration step", p)
+    # T7: the advanced state is examined against the final time before every further step
+    if cls == AIR:
+        fin_vars = {d["var"] for _, _, d in f.events(lambda d: d["k"] == "decl" and d.get("init") is not None and
+                                                     bool(sx_find(d["init"], lambda y: y[0] == "mem" and y[2].endswith("::userFinalTime"))))}
+        def final_test(c):
+            return bool(sx_find(c, lambda y: y[0] == "op" and y[1] in (">=", ">", "<", "<=") and
+                                bool(sx_find(y, lambda z: z[0] == "call" and z[1].endswith("::getAdvancedTime"))) and
+                                bool(sx_find(y, lambda z: (z[0] == "var" and z[1] in fin_vars) or (z[0] == "mem" and z[2].endswith("::userFinalTime"))))))
+        tests = {b for b, blk in f.blocks.items() if blk.get("term") and blk["term"].get("cond") is not None and final_test(blk["term"]["cond"])}
+        chk.shape(bool(tests) and bool(fin_vars), "TYPESTATE", short + ":T7:final-time-tests-exist", f.loc, "%d comparisons of getAdvancedTime() with the final time" % len(tests))
+        # the default label of the status switch is unreachable when the switch covers every enumerator (T5 below judges that)
+        dflt = set()
+        en7 = P.enums.get(IR + "::StepCommunicationStatus")
+        for sb, blk in f.blocks.items():
+            t7 = blk.get("term")
+            if t7 and t7["k"] == "switch" and en7 is not None and sx_find(t7.get("cond"), lambda y: y[0] == "call" and y[1].endswith("::getStepCommunicationStatus")):
+                have7 = {c[1].split("::")[-1] for c in t7["cases"] if isinstance(c, list) and c[0] == "enum"}
+                want7 = {n.split("::")[-1] for n, v in en7["enumerators"] if not n.endswith("InvalidStepCommunicationStatus")}
+                if have7 >= want7:
+                    dflt |= {(sb, s7) for s7 in blk["succ"] if s7 >= 0 and f.blocks[s7].get("case") == "default"}
+        # value correlation of the "collect a reason, then return it" idiom: a block that stores a real status in the variable tested by
+        # `reason != InvalidSuccessfulStepStatus` can only continue to the return, never to the next step
+        reason_vars = set()
+        for bb, blk in f.blocks.items():
+            t7 = blk.get("term")
+            c7 = t7.get("cond") if t7 else None
+            if isinstance(c7, list) and c7 and c7[0] == "op" and c7[1] == "!=" and var_of(c7[2]) and any(x.endswith("InvalidSuccessfulStepStatus") for x in sx_enums(c7[3])):
+                ts = blk["succ"][0]
+                if any(ev["k"] == "ret" and var_of(ev.get("val")) == var_of(c7[2]) for ev in f.blocks[ts]["ev"]):
+                    reason_vars.add(var_of(c7[2]))
+        bound = {bb for bb, blk in f.blocks.items() for ev in blk["ev"] if ev["k"] == "assign" and var_of(ev["lhs"]) in reason_vars and
+                 sx_enums(ev.get("rhs")) and not any(x.endswith("InvalidSuccessfulStepStatus") for x in sx_enums(ev["rhs"]))}
+        tests = tests | bound
+        for n, (b, i, e) in enumerate(steps):
+            p = f.path_exists(None, lambda q: q is e, lambda q: False, avoid_blocks=tests, avoid_edges=dflt)
+            p2 = f.path_exists((b, i), lambda q: q is e, lambda q: False, avoid_blocks=tests, avoid_edges=dflt)
+            chk.judge(p is None and p2 is None, "TYPESTATE", short + ":T7:final-time-tested-before-every-step#%d" % n, "%s:%d" % (f.file, e["line"]),
+                      "a further internal step is taken on a path that never compared the advanced time with the final time: an advanced state that has reached the "
+                      "final time (for instance the one behind a returned event window) would be stepped from instead of being returned as EndOfSimulation", p or p2)
     # T3: last status written per return
     sw = [b for b, blk in f.blocks.items() if blk.get("term") and blk["term"]["k"] == "switch" and
           sx_find(blk["term"].get("cond"), lambda y: y[0] == "call" and y[1].endswith("::getStepCommunicationStatus"))]
@@ -251,7 +292,7 @@ def window(chk, P):
     f = P.fn(AIR + "::takeOneStep")
     trep = f.d["params"][1][0]
     sites = [(b, i, e) for b, i, e in f.calls(IR + "::setTriggeredEvents")]
-    chk.shape(len(sites) == 2, "WINDOW", "two-report-sites", f.loc, "early exit and post-bisection report sites (found %d)" % len(sites))
+    chk.shape(len(sites) >= 1, "WINDOW", "report-sites", f.loc, "sites that report an event window (found %d)" % len(sites))
     def mentions(c, lo, hi):
         return bool(sx_find(c, lambda y: y[0] == "var" and y[1] == trep)) and (bool(sx_find(c, lambda y: y[0] == "var" and y[1] == lo)) or bool(sx_find(c, lambda y: y[0] == "var" and y[1] == hi)))
     for n, (b, i, e) in enumerate(sites):
@@ -299,6 +340,8 @@ MUTATIONS = [
     dict(name="seeded (sub-agent): narrow step reported as event window without looking at the report time", file=_A,
          old="    if (    (tHigh-tLow) <= narrowestWindow \n        && !(tLow < tReport && tReport < tHigh)) \n    {", new="    if ((tHigh-tLow) <= narrowestWindow) {",
          expect="WINDOW:site0"),
+    dict(name="seeded (sub-agent): the returned-event case no longer falls through to the examination of the advanced state", file=_A,
+         old="              setUseInterpolatedState(false);\n              // Fall through to the next case.\n", new="              setUseInterpolatedState(false);\n              break;\n", expect="T7:final-time-tested-before-every-step"),
     dict(name="EndOfSimulation returned without latching the final status", arm=True, file=_A,
          old="                  setUseInterpolatedState(false);\n                  setStepCommunicationStatus(FinalTimeHasBeenReturned);\n                  terminationReason",
          new="                  setUseInterpolatedState(false);\n                  terminationReason", expect="T1:EndOfSimulation#0:status"),
